@@ -28,7 +28,7 @@ fn payload(name: &'static str) -> String {
     s
 }
 
-pub const SHAPES: usize = 6;
+pub const SHAPES: usize = 7;
 
 /// Build start forest number `shape`. All contents of text-like nodes are
 /// symbolic; structure is concrete.
@@ -118,6 +118,19 @@ pub fn build(shape: usize, consolidate: bool) -> World {
             let t2 = xot.new_text(&payload("t2"));
             xot.append(b, t2).unwrap();
             nodes.extend([a, b, c, t, k, t2]);
+        }
+        5 => {
+            // element with two namespace declarations and no attribute yet; spare attribute node
+            let a = xot.new_element(name_a);
+            xot.set_namespace(a, pfx_p, ns_1);
+            xot.set_namespace(a, pfx_q, ns_2);
+            let b = xot.new_element(name_b);
+            xot.append(a, b).unwrap();
+            let t = xot.new_text(&payload("t1"));
+            xot.append(b, t).unwrap();
+            let x3 = xot.new_attribute_node(attr_y, payload("v3"));
+            let n2 = xot.namespaces(a).nodes().last().unwrap();
+            nodes.extend([a, n2, b, t, x3]);
         }
         _ => {
             // text - element - text - element under an element with an attribute
